@@ -11,7 +11,7 @@ META = {
     "technique": "Coq proofs by structural induction over a Gallina model of the operator parameter codec (data leaves / metadata, flatten-unflatten, bind_new_parameters) + vm_compute structural comparison of ASTs extracted from the real objects after copy, deepcopy, pickle, qp.pytrees, jax.tree_util and bind_new_parameters",
     "design_ref": "DESIGN.md §3 C06",
     "text": "Props/C06.v proves for ALL nested ASTs: unflatten(flatten a) = a, bind(a, params(a)) = a, bind replaces exactly the leaves in data order and preserves all metadata (class, wires, hyperparameters, control wires/values, exponents, operand order), bind succeeds iff the new leaves have the number and shapes of the old ones. Every run builds real operators and measurement processes of ~75 classes (named gates, nested Adjoint/Pow/Controlled/SProd/Exp/Sum/Prod/ChangeOpBasis, templates, channels, observables, 17 measurement kinds) with generated parameters and wire labels, sends them through copy.copy, copy.deepcopy, pickle, qp.pytrees.flatten/unflatten, jax.tree_util, bind_new_parameters(op, op.data / op.parameters) and bind_new_parameters with fresh values, extracts the AST of every result from the REAL object and checks inside Coq that it is structurally identical to the original's AST resp. to the model's bind; results are also compared with qp.equal in both orders, types and wires are compared, rebinding must return exactly the new data and leave the original untouched, and every mutable leaf of the deep copy is mutated in place to show that the original does not change (plus an identity scan for shared mutable objects).",
-    "note": "Trusted: Coq kernel; RebindModel.v is a hand transcription tied to /repo by the correspondence run only; the AST extraction in harness/impl/c04_impl.py. The proofs are about the codec LOGIC; Python object identity, pickle internals and jax registration are runtime behaviour observed per run, not proved. The control-value pseudo parameter of MultiControlledX/ControlledQubitUnitary is treated as metadata and passed through unchanged when rebinding. PennyLane's own pytree leaves (which for Operator2 also contain wires and exponents) are not compared leaf-by-leaf with the model's leaves, only the round trip. Classes whose hyperparameters hold operators of non-extractable kinds (LinearCombination, ApproxTimeEvolution, TrotterProduct, Select) are compared by qp.equal and a repr fingerprint only. Rebinding with a wrong number of parameters is observed (raised / silently returned) but not alarmed on: the property does not constrain it. Capture-primitive binding (plxpr) is not exercised. General complex parameters are not extractable (real or purely imaginary only).",
+    "note": "Trusted: Coq kernel; RebindModel.v is a hand transcription tied to /repo by the correspondence run only; the AST extraction in harness/impl/c04_impl.py. The proofs are about the codec LOGIC; Python object identity, pickle internals and jax registration are runtime behaviour observed per run, not proved. The control-value pseudo parameter of MultiControlledX/ControlledQubitUnitary is treated as metadata and passed through unchanged when rebinding. PennyLane's own pytree leaves (which for Operator2 also contain wires and exponents) are not compared leaf-by-leaf with the model's leaves, only the round trip. Classes whose hyperparameters hold operators of non-extractable kinds (LinearCombination, ApproxTimeEvolution, TrotterProduct, Select) are compared by qp.equal and a repr fingerprint only. Rebinding with a wrong number of parameters is observed (raised / silently returned) but not alarmed on: the property does not constrain it. Capture-primitive binding (plxpr) is not exercised. Two defects of the unchanged tree are reported under stable keys (known_findings.json): finding:deepcopy_shares_data_arrays (Operator.__deepcopy__ shallow-copies _data by design, so ndarray parameters of old-style operators are shared with the deep copy) and finding:bind_controlled_qubit_unitary (bind_new_parameters on ControlledQubitUnitary raises / drops control values); any other sharing or rebinding failure is a per-case violation. Shallow copies (copy.copy) are allowed to share state. General complex parameters are not extractable (real or purely imaginary only).",
     "assumptions": ["operators are concrete (no tracers), data are numpy/python numbers",
                     "new parameters have the shapes and real/imaginary kind of the old ones"],
     "trusted": ["hand-written model coq/Disc/RebindModel.v tied to /repo by correspondence only",
@@ -180,7 +180,7 @@ def bind_key(default, has_cqu):
 def run(ctx):
     ctx.coq_props()
     rng = ctx.rng
-    n = 320 if ctx.tier == "quick" else 3000
+    n = 260 if ctx.tier == "quick" else 3000
     cases = [{"spec": s, "fresh": [[0.25, 0.125, 0.375, 0.0625] * 3, [0.3125] * 12]} for s in CORPUS]
     while len(cases) < n:
         pool = rng.sample(G.LABELS, rng.choice([2, 3, 4, 4, 5]))
